@@ -714,11 +714,11 @@ fn scripted_run(
                 out.line(format!("impl out={o}"));
                 if resume == Cmd::Cont && rng.chance(1, 2) {
                     // asynchronous pause from this (second) thread after a random delay
-                    let spin = match rng.below(4) {
+                    let spin = match rng.below(8) {
                         0 => 0,
                         1 => rng.below(500),
-                        2 => rng.below(20_000),
-                        _ => rng.below(200_000),
+                        2 | 3 => rng.below(20_000),
+                        _ => rng.below(400_000),
                     };
                     for _ in 0..spin {
                         std::hint::spin_loop();
